@@ -74,7 +74,8 @@ func (self *Interpreter) letStatement(node ast.AnalyzedLetStatement) *value.Inte
 	// TODO: is this ok? is it required to dynamically cast a value in here?
 	newValue, i := value.DeepCast(*rhsVal, node.OptType, node.Range, false)
 	if i != nil {
-		return i
+		// A failed cast is an ordinary, catchable exception (like on the VM).
+		return value.NewThrowInterrupt(node.Range, "Cast error "+(*i).Message())
 	}
 
 	// if i := self.valueIsCompatibleToType(*rhsVal, node.OptType, node.Range); i != nil {
